@@ -11,5 +11,5 @@ for p in $PROPS; do
   nv=$(echo "$out" | grep -c "^VIOLATION")
   if [ $rc -ne 0 ]; then echo "== $p exit=$rc violations=$nv"; echo "$out" | grep -B1 "^VIOLATION" | grep -v "^VIOLATION\|^--" | cut -c1-300 | head -4; echo "$out" | grep "^check:" ; fi
 done
-git -C /repo checkout -- .
+git -C /repo checkout -- . ; git -C /repo clean -fdq -- packages
 git -C /repo status --short | head -3
